@@ -3,10 +3,6 @@
 pub open spec fn sb(s: &str) -> Seq<u8> { s.spec_bytes() }
 
 // ---- AbsPath as seen from this unit (its methods are verified in unit U9)
-/// result of canonicalize
-pub uninterp spec fn canon(p: PathV) -> PathV;
-/// the parent directory of the target exists and is writable, i.e. creating/resolving can succeed
-pub uninterp spec fn resolvable(p: PathV) -> bool;
 
 impl AbsPath {
     /// the absolute, canonical path
